@@ -33,3 +33,40 @@ Example C04_example :
     templates (build cs b0) = [mkdtempl 7 [mkdloc (Named 5) (Some 100) None false true; mkdloc (Anon 1) None None false false] [Anon 9] (Some (Anon 1))
        [mkdedge (Named 5) (Anon 9) true [201] (Some 202) None None None; mkdedge (Anon 9) (Anon 1) false [] None None None (Some 203)]].
 Proof. eexists. eexists. split; [reflexivity|]. split; vm_compute; reflexivity. Qed.
+
+(* ---- the invariant the type checker stores (RateModel.v: RateDecomposer::decompose of src/typechecker.cpp) ---- *)
+From Utap Require Import Typing RateModel RateProofs.
+
+(* For every invariant label visitLocation hands to the decomposer (class INVARIANT or INVARIANT_WR by the clauses of
+   checkExpression), whatever its size and nesting: the conjuncts of the stored invariant are the top-level conjuncts of the
+   label, in source order, none added, dropped or duplicated, except that the cost equations among them are taken out (they
+   go to the location's cost rate). *)
+Theorem C04_stored_invariant_conjuncts e : accepted e = true -> flat_all (stored e) = filter keeps (flat e).
+Proof. exact (stored_conjuncts e). Qed.
+Theorem C04_stored_invariant_without_cost e : accepted e = true -> forallb keeps (flat e) = true -> flat_all (stored e) = flat e.
+Proof. exact (stored_rate_free e). Qed.
+(* from any state of the decomposer (it is also the step of the induction) *)
+Theorem C04_decompose_appends_conjuncts e s : accepted e = true ->
+  flat_all (inv (decompose e false s)) = flat_all (inv s) ++ filter keeps (flat e).
+Proof. exact (decompose_conjuncts e s). Qed.
+(* below a quantifier or a disjunction nothing is recorded: the enclosing conjunct is, once *)
+Theorem C04_inner_levels_record_nothing e s : inv (decompose e true s) = inv s.
+Proof. exact (decompose_inner_keeps_invariant e s). Qed.
+(* every cost equation of the label is counted, at any depth; the last one is the location's cost rate *)
+Theorem C04_cost_rates e f s : accepted e = true ->
+  ncost (decompose e f s) = ncost s + length (cost_rates e) /\ cost (decompose e f s) = last_opt (cost_rates e) (cost s).
+Proof. exact (decompose_costs e f s). Qed.
+(* the document stops a clock exactly when some equation of the label, at any depth, sets the rate of a clock *)
+Theorem C04_stop_watch e f s : accepted e = true -> clockrates (decompose e f s) = clockrates s || has_clock_rate e.
+Proof. exact (decompose_clock_rates e f s). Qed.
+Theorem C04_strict_bound e f s : accepted e = true -> strict (decompose e f s) = strict s || strict_roots e.
+Proof. exact (decompose_strict e f s). Qed.
+
+(* x <= 5 && (cost' == 2 && forall (y' == 0)) && (b || x' == 1) && x < 3 *)
+Example C04_rate_example :
+  let e := LAnd (LAnd (LAnd (LLeaf CInvariant false 1) (LAnd (LRate true true 2 CInt) (LForall (LRate false true 3 CInt))))
+                      (LOr (LLeaf CBool false 4) (LRate false true 5 CInt))) (LLeaf CInvariant true 6) in
+  accepted e = true /\ plain e = false /\
+  stored e = [LLeaf CInvariant false 1; LForall (LRate false true 3 CInt); LOr (LLeaf CBool false 4) (LRate false true 5 CInt); LLeaf CInvariant true 6] /\
+  cost (decompose e false d0) = Some 2 /\ ncost (decompose e false d0) = 1 /\ clockrates (decompose e false d0) = true /\ strict (decompose e false d0) = true.
+Proof. vm_compute. repeat split. Qed.
